@@ -1,8 +1,6 @@
 ; CVSS v2.0 equations (guide section 3.2) over the reals.
 ; round_to_1_decimal is not defined on exact ties: k/10 is an admissible rounding of x iff |10x - k| <= 1/2.
 (define-fun rnd1 ((x Real) (k Int)) Bool (<= (rabs (- (* 10.0 x) (to_real k))) 0.5))
-; the integer number of tenths denoted by a float (nearest integer to 10*r)
-(define-fun kof ((r F64)) Int (to_int (+ (* (fp.to_real r) 10.0) 0.5)))
 (define-fun impact20 ((c CVSS20)) Real
   (* 10.41 (- 1.0 (* (- 1.0 (w20_CIA (f20_C c))) (* (- 1.0 (w20_CIA (f20_I c))) (- 1.0 (w20_CIA (f20_A c))))))))
 (define-fun expl20 ((c CVSS20)) Real (* 20.0 (* (w20_AV (f20_AV c)) (* (w20_AC (f20_AC c)) (w20_Au (f20_Au c))))))
